@@ -103,7 +103,9 @@ func (c15) Run(c *mon.Ctx, i int) {
 		}
 	}
 	base := errors.New("c15: injected source failure")
-	errVals := []error{base, io.ErrClosedPipe, wrapErr{base}, io.ErrNoProgress}
+	// including errors that merely wrap io.EOF / io.ErrUnexpectedEOF: they are not
+	// end-of-input and must come back as themselves
+	errVals := []error{base, io.ErrClosedPipe, wrapErr{base}, io.ErrNoProgress, wrapErr{io.EOF}, fmt.Errorf("read tcp: %w", io.ErrUnexpectedEOF), wrapErr{io.EOF}}
 	baseDesc := map[string]interface{}{"reader": kind, "container": vs.Desc, "data": d.Desc, "container_len": len(cont), "container_sha": mon.Sha(cont)}
 	for _, k := range ks {
 		E := errVals[r.Intn(len(errVals))]
@@ -168,7 +170,7 @@ func (c15) Run(c *mon.Ctx, i int) {
 			c.Violate("non-payload-bytes|"+where, fmt.Sprintf("source failed after %d of %d bytes; the reader returned bytes that are not a payload prefix (first difference at %d)", k, len(cont), firstDiff(out, d.B)), desc)
 		case ferr == nil:
 			c.Violate("no-error|"+where, "reader stopped without an error", desc)
-		case !errors.Is(ferr, E) || ferr == io.EOF || ferr == io.ErrUnexpectedEOF:
+		case !errors.Is(ferr, E) || ferr == io.EOF || ferr == io.ErrUnexpectedEOF || (errors.Is(E, io.EOF) || errors.Is(E, io.ErrUnexpectedEOF)) && !sameErr(ferr, E):
 			c.Violate("source-error-replaced|"+where+"|"+errKind(ferr), fmt.Sprintf("source failed with %q after %d of %d bytes; the reader reported %v", E, k, len(cont), ferr), desc)
 		case sticky != "":
 			c.Violate("error-not-sticky|"+where, sticky, desc)
@@ -192,3 +194,14 @@ func (c15) Run(c *mon.Ctx, i int) {
 }
 
 var _ = bytes.Equal
+
+// sameErr: ferr is E itself or wraps it (identity somewhere in the chain), as
+// opposed to merely matching one of E's own wrapped sentinels.
+func sameErr(ferr, E error) bool {
+	for e := ferr; e != nil; e = errors.Unwrap(e) {
+		if e == E {
+			return true
+		}
+	}
+	return false
+}
